@@ -90,6 +90,30 @@ example :
   | 1 => simp at hl; subst hl; simp
   | (k + 2) => simp at hl
 
+/-- The same for a configuration as the code holds it: when the float64 value of `spotsize / (speed * scantime)`
+(`SrrConfig.magnification`, two rounded operations) is the integer `M ≥ 1` - "integer magnification" - the functions that
+read `self.config.magnification` (`valid_for_data`, `krisskross`, `subpixels_per_pixel`) behave as `krisskross_voxel` says. -/
+theorem krisskross_voxel_of_config {α : Type} (z : α) (c : SrrConfig) (M : Nat) (hM : 1 ≤ M)
+    (hm : c.magnification = (M : Rat)) (hscan : 0 < c.scantime) (hoffs : c.offs ≠ [])
+    (layers : List (Arr2 α)) (l0 s0 l1 s1 : Nat) (hc : Crossed layers l0 s0 l1 s1)
+    (hv : validForData c c.magnification layers = some true) :
+    ∃ out, krisskross z c c.magnification layers = some out ∧
+      out.rows = reconRows l0 M (subpixelsPerPixel c.size c.magnification) c.offs ∧
+      out.cols = reconCols l1 M (subpixelsPerPixel c.size c.magnification) c.offs ∧
+      out.depth = layers.length ∧
+      (∀ r cc i, out.get r cc i
+        = voxel z l0 l1 M (subpixelsPerPixel c.size c.magnification) c.warmup.toNat c.offs layers r cc i) := by
+  rw [hm] at hv ⊢
+  obtain ⟨out, h1, h2, h3, h4, h5, _⟩ := krisskross_voxel z c M hM hscan hoffs layers l0 s0 l1 s1 hc hv
+  exact ⟨out, h1, h2, h3, h4, h5⟩
+
+/-- non-vacuity: speed 1.7, scan time 0.1 and spot size 2·(1.7·0.1) as float64 values: the exact quotient of the three
+floats is not 2, the float64 magnification is exactly 2 -/
+example :
+    let c := SrrConfig.make (6124895493223875 / 18014398509481984) (7656119366529843 / 4503599627370496)
+      (3602879701896397 / 36028797018963968) 0 [(0, 1)]
+    c.magnification = ((2 : Nat) : Rat) ∧ c.magnificationExact ≠ 2 := by decide +kernel
+
 /-- **Acceptance implies that every intermediate shape matches**, so no NumPy assignment can fail:
 each prepared layer has exactly the shape `(l0·M, l1·M)` of its slot in `aligned`, each target
 region of `subpixel_offset` has exactly the shape of the enlarged block, and both steps succeed. -/
